@@ -380,11 +380,11 @@ def wl_docs(run, rng, idx):
 
 
 WORKLOADS = [
-    Workload("polygons", wl_polygons, quick=192, thorough=4800),
-    Workload("geodesics", wl_geodesics, quick=144, thorough=2880),
+    Workload("polygons", wl_polygons, quick=150, thorough=4800),
+    Workload("geodesics", wl_geodesics, quick=108, thorough=2880),
     Workload("points", wl_points, quick=72, thorough=720),
     Workload("horo", wl_horo, quick=60, thorough=1200),
-    Workload("projective", wl_projective, quick=108, thorough=1512),
+    Workload("projective", wl_projective, quick=96, thorough=1512),
     Workload("wrong-dimension", wl_wrong_dimension, quick=48, thorough=192),
     Workload("docs", wl_docs, quick=18, thorough=180),
 ]
